@@ -293,6 +293,29 @@ def run(ctx):
                                   dict(case, posterior=v))
                     return
                 ctx.count("posterior_vectors_rejected")
+    # check_prior is handed parameter *values* whatever coordinates the sampler works in: the 'positive' flag rejects a
+    # negative value on every interface class, created with or without log_space_parameters
+    from bioscrape.pid_interfaces import PIDInterface, StochasticInference
+    prior2 = {"p0": ["gaussian", 0.5, 2.0, "positive"], "p1": ["uniform", -10.0, 10.0, "positive"]}
+    for cls in (PIDInterface, DeterministicInference, StochasticInference):
+        for log_space in (False, True):
+            obj = cls(["p0", "p1"], M, prior2, log_space_parameters=True) if log_space else cls(["p0", "p1"], M, prior2)
+            for vals, rejected in (({"p0": -0.3, "p1": 2.0}, True), ({"p0": 1.0, "p1": -4.0}, True), ({"p0": -1.0, "p1": -1.0}, True), ({"p0": 1.0, "p1": 11.0}, True),
+                                   ({"p0": 1.0, "p1": 2.0}, False)):
+                case = {"scenario": "check_prior on values", "class": cls.__name__, "log_space_parameters": log_space, "priors": prior2, "values": vals}
+                ctx.begin_case(case)
+                lp = float(obj.check_prior(dict(vals)))
+                ctx.evaluated()
+                want = float(scipy_logpdf(["gaussian", 0.5, 2.0], vals["p0"]) + scipy_logpdf(["uniform", -10.0, 10.0], vals["p1"]))
+                if rejected and math.isfinite(lp):
+                    ctx.violation("prior/support/positive-flag/log-space-interface" if log_space else "prior/support/positive-flag",
+                                  "%s(log_space_parameters=%s).check_prior(%s) = %r: a negative value under the 'positive' flag (or a value outside the support) gets a finite log-prior"
+                                  % (cls.__name__, log_space, vals, lp), case)
+                    return
+                if not rejected and not (abs(lp - want) <= 1e-9 * (1 + abs(want))):
+                    ctx.violation("prior/density/log-space-interface", "%s(log_space_parameters=%s).check_prior(%s) = %r, the log-densities sum to %r" % (cls.__name__, log_space, vals, lp, want), case)
+                    return
+                ctx.count("check_prior_on_values")
 
 
 def replay(ctx, obj):
